@@ -918,56 +918,74 @@ def summarise(prog: Program, fi: FuncInfo) -> Summary:
 
 
 def alias_fields(events: List[Event]) -> List[Event]:
-    """A local that is bound exactly once, unconditionally and outside loops, to an attribute path
-    (`queue = self.next_steps`) whose attributes are not re-assigned in the function denotes the same
-    object as the path for the whole function: it is replaced by the path (mutating the object through
-    either name is the same thing)."""
-    binds: Dict[Term, List[Event]] = {}
-    for e in events:
+    """A local that is bound to an access path (`queue = self.next_steps`, or inside a loop
+    `anc = dest_sim.triggering_ancestors`) denotes the same object as the path until it is bound again:
+    within that scope (the rest of the iteration it was bound in) it is replaced by the path, provided that
+    neither the attributes of the path nor its root variables are re-assigned there.  Mutating the object
+    through either name is the same thing."""
+    bind_idx: Dict[Term, List[int]] = {}
+    for i, e in enumerate(events):
         if e.kind == "bind":
-            binds.setdefault(e.term[1], []).append(e)
-    stored_attrs = set()
-    for e in events:
-        if e.kind in ("store", "del"):
-            t = e.term[1]
-            if t[0] == "attr":
-                stored_attrs.add(t[2])
-    mapping: Dict[Term, Term] = {}
-    for v, bs in binds.items():
-        if len(bs) != 1 or bs[0].guards and any(True for _ in ()):
-            continue
-        b = bs[0]
-        val = T.strip(b.term[2])
-        if b.iters or val[0] != "attr":
-            continue
-        path, ok = val, True
-        while path[0] == "attr":
-            if path[2] in stored_attrs:
-                ok = False
-            path = path[1]
-        if not ok or path[0] != "var" or path in binds:
-            continue
-        # the local must really be used as a name somewhere (otherwise nothing to do)
-        mapping[v] = val
-    if not mapping:
+            bind_idx.setdefault(e.term[1], []).append(i)
+    if not bind_idx:
         return events
-    used = False
-    for e in events:
-        if e.kind != "bind" or e.term[1] not in mapping:
-            if any(T.contains((e.term, e.guards, e.iters), v) for v in mapping):
-                used = True
-                break
-    if not used:
-        return events
-    out: List[Event] = []
-    for e in events:
-        if e.kind == "bind" and e.term[1] in mapping:
-            out.append(e)
-            continue
-        out.append(Event(len(out), e.kind, T.replace(e.term, mapping), T.replace(e.raw, mapping), e.node, e.stmt, T.replace(e.guards, mapping), T.replace(e.iters, mapping), e.tries, e.awaited, e.extra))
-    for i, e in enumerate(out):
-        e.idx = i
-    return out
+    out = list(events)
+    changed = False
+    for v, idxs in bind_idx.items():
+        for n, bi in enumerate(idxs):
+            b = events[bi]
+            val = T.strip(b.term[2])
+            if val[0] not in ("attr", "idx"):
+                continue
+            # the path: attribute / constant-or-variable index steps down to a root variable
+            path, attrs, roots, ok = val, set(), set(), True
+            while path[0] in ("attr", "idx"):
+                if path[0] == "attr":
+                    attrs.add(path[2])
+                else:
+                    if path[2][0] not in ("var", "const"):
+                        ok = False
+                    if path[2][0] == "var":
+                        roots.add(path[2])
+                path = path[1]
+            if not ok or path[0] != "var" or path == v:
+                continue
+            roots.add(path)
+            stop = idxs[n + 1] if n + 1 < len(idxs) else len(events)
+            scope = [i for i in range(bi + 1, stop) if events[i].iters[:len(b.iters)] == b.iters]
+            if not scope or not any(T.contains((events[i].term, events[i].guards, events[i].iters), v) for i in scope):
+                continue
+            # nothing in the scope re-assigns an attribute of the path or re-binds one of its root variables
+            clash = False
+            for i in scope:
+                e = events[i]
+                if e.kind in ("store", "del") and e.term[1][0] == "attr" and e.term[1][2] in attrs:
+                    clash = True
+                if e.kind == "bind" and e.term[1] in roots:
+                    clash = True
+                if e.kind == "store" and val[0] == "idx" and e.term[1] == val:
+                    clash = True
+            if clash:
+                continue
+            m = {v: val}
+            # a condition speaks about the value the name had when it was tested: conditions that are first seen inside
+            # the scope are rewritten wherever they appear later (also after a re-binding); older ones are left alone
+            seen_before = set()
+            for i in range(0, bi + 1):
+                seen_before |= set(events[i].guards)
+            in_scope_guards = set()
+            for i in list(scope) + ([stop] if stop < len(events) else []):
+                in_scope_guards |= {g for g in events[i].guards if g not in seen_before}
+            for i in range(bi + 1, len(events)):
+                e = out[i]
+                inside = i in scope_set if (scope_set := set(scope)) else False
+                gs = tuple(T.replace(g, m) if g in in_scope_guards else g for g in e.guards)
+                if inside:
+                    out[i] = Event(e.idx, e.kind, T.replace(e.term, m), T.replace(e.raw, m), e.node, e.stmt, gs, T.replace(e.iters, m), e.tries, e.awaited, e.extra)
+                elif gs != e.guards:
+                    out[i] = Event(e.idx, e.kind, e.term, e.raw, e.node, e.stmt, gs, e.iters, e.tries, e.awaited, e.extra)
+            changed = True
+    return out if changed else events
 
 
 def fuse_events(events: List[Event]) -> List[Event]:
